@@ -10,8 +10,8 @@
    * Everything after these lines (and every fd received) belongs to the message stream.
    * No input makes the client panic.
 
-   From C16 the words-of-a-line reading ([tokens], [cut_line], [is_ascii], [empty_line_ahead]), the observation record
-   and the class name of the bare-LF finding are reused; from Model only the observable [outcome]. *)
+   From C16 the words-of-a-line reading ([tokens], [cut_line], [is_ascii]) and the observation record are reused;
+   from Model only the observable [outcome]. *)
 From ZV Require Import Base.Bytes C16.Model C16.Spec C17.Model.
 
 Record cctx := mkCctx { y_expected : option bytes; y_fdcap : bool }.
@@ -39,14 +39,10 @@ Inductive cverdict :=
 | CVNoFd (tail : bytes)                  (* may fail, or complete without fd passing and with this rest *)
 | CVUnclear.                             (* only: no panic *)
 
-Definition cunclear (rest : bytes) : cverdict * option klass :=
-  (CVUnclear, if empty_line_ahead rest true then Some KLfLineStart else None).
-
 (* one handshake line: the body of a well-terminated ASCII line and what follows it *)
 Inductive line_res :=
 | LEof                     (* the stream ends inside the line *)
-| LBareLf                  (* an LF where the line should start *)
-| LUnclear (rest : bytes)  (* LF without CR, or non-ASCII bytes *)
+| LUnclear (rest : bytes)  (* LF without CR (also a bare LF), or non-ASCII bytes *)
 | LLine (body rest : bytes).
 
 Definition next_line (s : bytes) : line_res :=
@@ -54,7 +50,7 @@ Definition next_line (s : bytes) : line_res :=
   | None => LEof
   | Some (seg, rest) =>
       match rev seg with
-      | [] => LBareLf
+      | [] => LUnclear rest
       | last :: rbody =>
           if negb (beq last x0d) then LUnclear rest
           else if negb (is_ascii (rev rbody)) then LUnclear rest
@@ -62,34 +58,29 @@ Definition next_line (s : bytes) : line_res :=
       end
   end.
 
-Definition spec_client (y : cctx) (s : bytes) : cverdict * option klass :=
+Definition spec_client (y : cctx) (s : bytes) : cverdict :=
   match next_line s with
-  | LEof => (CVFail, None)
-  | LBareLf => (CVUnclear, Some KLfLineStart)
-  | LUnclear rest => cunclear rest
+  | LEof => CVFail
+  | LUnclear _ => CVUnclear
   | LLine body rest =>
       match ok_guid body with
-      | None => (CVFail, None)
+      | None => CVFail
       | Some g =>
-          if negb (guid_expected y g) then (CVFail, None)
-          else if negb (y_fdcap y) then (CVDone false rest, None)
+          if negb (guid_expected y g) then CVFail
+          else if negb (y_fdcap y) then CVDone false rest
           else
             match next_line rest with
-            | LEof => (CVFail, None)
-            | LBareLf => (CVUnclear, Some KLfLineStart)
-            | LUnclear rest2 => cunclear rest2
+            | LEof => CVFail
+            | LUnclear _ => CVUnclear
             | LLine body2 rest2 =>
                 match fd_answer body2 with
-                | AAgree => (CVDone true rest2, None)
-                | ARefuse => (CVDone false rest2, None)
-                | AOther => (CVNoFd rest2, None)
+                | AAgree => CVDone true rest2
+                | ARefuse => CVDone false rest2
+                | AOther => CVNoFd rest2
                 end
             end
       end
   end.
-
-Definition cverdict_of (y : cctx) (s : bytes) : cverdict := fst (spec_client y s).
-Definition cknown_class (y : cctx) (s : bytes) : option klass := snd (spec_client y s).
 
 (* the oracle on an observation; [all_fds]: every fd the server attached to the stream, in order *)
 Definition done_with (fd : bool) (tail : bytes) (all_fds : list N) (o : obs) : bool :=
